@@ -110,6 +110,21 @@ def run(tier):
     marked.append(("o358a", "known-offender:358", "extern fn checksum(\n\tdata: []u128, // HERE\n\tlength: usize\n) -> u64;\nfn main()\n{\n}\n"))
     marked.append(("o358b", "known-offender:358", "extern fn flags(\n\tcount: usize,\n\tbits: []bool // HERE\n);\nfn main()\n{\n}\n"))
     marked.append(("o358c", "known-offender:358", "extern fn wide(\n\tvalue: u128 // HERE\n);\nfn main()\n{\n}\n"))
+    # diagnostics with secondary labels: the excerpts shown are exactly the lines marked SHOWN (the `goto` that
+    # does skip the declaration, not a later `goto` to the same label; both declarations of a duplicate)
+    def skip_prog(before, after):
+        b = "fn foo(x: i32) -> i32\n{\n\tvar result = 300;\n"
+        for k in range(before):
+            b += "\tif x == %d\n\t\tgoto calculations; // %s\n" % (400 + k, "SHOWN" if k == 0 else "")
+        b += "\tvar a: i32 = 5; // SHOWN\n"
+        for k in range(after):
+            b += "\tif x == %d\n\t\tgoto calculations;\n\tresult = result + 1;\n" % (500 + k)
+        b += "\tcalculations: // SHOWN\n\ta = 2 * a; // SHOWN\n\tresult = result + a;\n\treturn: result\n}\nfn main() -> i32\n{\n\treturn: foo(404)\n}\n"
+        return b
+    for bi, (nb, na) in enumerate([(1, 0), (1, 1), (1, 2), (1, 3)]):
+        marked.append(("sl482.%d" % bi, "shown-lines:482", skip_prog(nb, na)))
+    marked.append(("sl422", "shown-lines:422", "fn main()\n{\n\tvar r: i32 = 1; // SHOWN\n\tvar q: i32 = 2;\n\tvar r: i32 = 3; // SHOWN\n}\n"))
+    marked.append(("sl420", "shown-lines:420", "fn main()\n{\n\tvar r: i32 = 1;\n\tagain: // SHOWN\n\tr = 2;\n\tagain: // SHOWN\n\tr = 3;\n}\n"))
     # the returned value is the offender (E333: the value does not have the declared return type)
     marked.append(("orv", "known-offender:333", "fn foo() -> i32\n{\n\tvar x: bool = true;\n\treturn: x // HERE\n}\nfn main()\n{\n}\n"))
     marked.append(("orv2", "known-offender:333", "fn foo(a: i32) -> bool\n{\n\tif a == 1\n\t{\n\t\ta = 2;\n\t}\n\treturn: a // HERE\n\n\n}\nfn main()\n{\n}\n"))
@@ -157,6 +172,16 @@ def run(tier):
             if mine and not any(files.get(m_.group(1), "")[int(m_.group(2)):int(m_.group(3))] == txt for m_ in mine if m_):
                 bad += 1
                 ck.violation("span-misses-offender:E" + want, "E%s covers %s, the offending text is `%s`" % (want, [files.get(m_.group(1), "")[int(m_.group(2)):int(m_.group(3))] for m_ in mine if m_], txt), "source:\n%s\ndiagnostics: %s" % (src, f[1]))
+        if kind.startswith("shown-lines:"):
+            want = kind.split(":")[1]
+            text_ = files["case.pn"]
+            expect = sorted(i + 1 for i, l_ in enumerate(text_.split("\n")) if l_.endswith("// SHOWN"))
+            for d in diags:
+                if d.startswith(want + "@") and "%" in d:
+                    got = sorted(int(x) for x in d.rsplit("%", 1)[1].split(",") if x)
+                    if got != expect:
+                        bad += 1
+                        ck.violation("labels-elsewhere:E" + want, "E%s shows excerpts of lines %s, the lines involved are %s" % (want, got, expect), "source:\n%s\ndiagnostics: %s" % (src, f[1]))
         if kind.startswith("known-offender:"):
             want = kind.split(":")[1]
             hfile = [fn_ for fn_, text_ in files.items() if "// HERE" in text_][0]
